@@ -290,6 +290,25 @@ func runC02C03(c *Ctx, which string) {
 		}
 		cs := map[string]interface{}{"world": worldJSON(w), "options": o.String(), "family": fam.name}
 		in := normRootDoc(w)
+		if which == "C02" && i%6 == 5 {
+			// meaning is preserved by EVERY successful expansion, also one that leaves the schemas alone
+			// (C09 says what else holds then); decided by the independent unfolding only
+			o.Skip = true
+			cs["options"] = o.String()
+			c.Hit("skip-schemas")
+			sres := expandWorld(w, o)
+			switch {
+			case sres.Hang || sres.Panic != "":
+				c.Fail(Failure{Kind: "crash", Sig: "C04:panic", What: "ExpandSpec panicked or hung: " + sres.Panic, Case: cs})
+			case sres.Err != nil:
+				c.Fail(Failure{Kind: "oracle", Sig: "C08:spurious-error", What: "every $ref is resolvable but ExpandSpec fails: " + sres.Err.Error(), Case: cs})
+			default:
+				if msg, ok := checkMeaning(w, in, sres.Out, 6); !ok {
+					c.Fail(Failure{Kind: "oracle", Sig: "C02:meaning-changed", What: msg, Case: cs, Impl: clip(sres.Out.Text())})
+				}
+			}
+			continue
+		}
 		res := expandWorld(w, o)
 		before := len(c.Res.Failures)
 		checkExpansionResult(c, which, w, g, in, res, o, cs, cyclic)
